@@ -7,7 +7,7 @@
 export GOFLAGS=-mod=mod GOPROXY=off GOSUMDB=off GOTOOLCHAIN=local GOWORK=off
 SD=$(readlink -f "$1"); NAME=$2; shift 2
 V=$(cd "$(dirname "$0")/.." && pwd)
-IDS="$@"; [ -z "$IDS" ] && IDS=$("$V/bin/dverif" list | cut -d' ' -f1)
+IDS="$@"; [ -z "$IDS" ] && IDS=$("${DVERIF:-$V/bin/dverif}" list | cut -d' ' -f1)
 WT=$(mktemp -d /tmp/cs-XXXXXX); rmdir "$WT"
 git -C /repo worktree add -q --detach "$WT" HEAD || exit 9
 cleanup() { git -C /repo worktree remove --force "$WT" 2>/dev/null; rm -rf "$WT" "$WT.ev"; }
@@ -22,7 +22,7 @@ timeout 600 bash "$SD/demo/run.sh" "$WT" >>"$LOG" 2>&1; rc_patched=$?
 (cd "$WT" && git clean -fdq -e '!*' >/dev/null 2>&1; true)
 fired=""; silent=""
 for id in $IDS; do
-  out=$("$V/bin/dverif" check "$id" --repo "$WT" --out "$WT.ev" -q 2>&1)
+  out=$("${DVERIF:-$V/bin/dverif}" check "$id" --repo "$WT" --out "$WT.ev" -q 2>&1)
   if echo "$out" | grep -q '^VIOLATION'; then
     fired="$fired $id"; echo "== $id ==" >>"$LOG"; echo "$out" | grep '^VIOLATION' | sed -e 's/replay=[^ ]* //' | cut -c1-400 >>"$LOG"
   else silent="$silent $id"; fi
